@@ -15,7 +15,7 @@ import (
 func init() {
 	register(&Property{
 		ID:       "C02",
-		Patterns: []string{".", "./services/replay", "./services/udp"},
+		Patterns: []string{".", "./services/replay", "./services/udp", "./services/httpd"},
 		Run:      runC02,
 		Explanation: "Stream routing as structure: the routing-table key is built field by field from the same roles at registration (forkKeys: declared db/rp × every from() measurement) and at lookup (forkPoint: the point's own db/rp/name, plus the empty-measurement key); " +
 			"every Collect in the fan-out is on an edge found under one of those keys, with the point itself, in loops that are never left early; when two lookups feed one point, the second skips tasks the first already served (single delivery per task edge); " +
@@ -28,6 +28,7 @@ func init() {
 func runC02(c *core.Ctx) {
 	c02ForkOwner(c)
 	c02ReadBuf(c)
+	c02BodyIntact(c)
 	c.Rule("C02.keys", "A7: forkKey is built from the same roles on both sides: forkKeys{Database←dbrp.Database, RetentionPolicy←dbrp.RetentionPolicy, Measurement←measurement} as the full product dbrps×measurements; forkPoint looks up {p.Database(), p.RetentionPolicy(), p.Name()} and the same with Measurement \"\"; Task.Measurements appends the Measurement of every FromNode")
 	c.Rule("C02.collect", "A3/A2: every Collect in forkPoint (and helpers it calls) is on an edge ranged from tm.forks[<one of the two lookup keys>], passes the point itself, and sits in a loop without break/return (an edge error never hides the point from later tasks)")
 	c.Rule("C02.single", "A1: when forkPoint collects from more than one lookup, every loop but the first skips task ids present in the first lookup's map before Collect (a task registered under both keys gets the point once)")
